@@ -35,9 +35,7 @@ def flat(s):
     return re.sub(r"\s+", "", s)
 
 
-def flatp(s):
-    """flat text without parentheses (tolerant to redundant grouping)"""
-    return re.sub(r"[\s()]+", "", s)
+from rules.common import flatp, has, same  # noqa: E402
 
 
 def cmp_canon(text):
@@ -149,7 +147,7 @@ def r1_semantics(ctx):
                         r.inst("range_to_token_stream#" + k.strip("( "), " / ".join(q for q in qs if q) or "(empty)")
                     if k == "Range::Multiple(":
                         t = flat(show(a["body"]))
-                        if "matchs.iter().map(range_to_token_stream)" not in t:
+                        if not has(t, "matchs.iter().map(range_to_token_stream)"):
                             r.viol("R1:range_to_token_stream#Multiple-rec", "alternatives are not rendered by range_to_token_stream in order", file=fn.file, line=a["line"])
         for k in want:
             if k not in seen:
@@ -168,10 +166,10 @@ def r1_semantics(ctx):
                 ok = qs == ["plural_count == #%s" % (v[0] if v else "exact")] and body.startswith("Some(")
                 what = "plural_count == #exact"
             elif k.startswith("Range::Bounds"):
-                ok = qs == ["core :: ops :: RangeBounds :: contains (& (#ts) , & plural_count)"] and "letts=range_to_token_stream(range)" in body and "Some(" in body
+                ok = qs == ["core :: ops :: RangeBounds :: contains (& (#ts) , & plural_count)"] and has(body, "letts=range_to_token_stream(range)") and has(body, "Some(")
                 what = "RangeBounds::contains(&(pattern), &plural_count) with the pattern of range_to_token_stream"
             elif k.startswith("Range::Multiple"):
-                ok = qs == ["#first #(|| #conditions)*"] and "conditions.iter().filter_map(range_to_condition)" in body
+                ok = qs == ["#first #(|| #conditions)*"] and has(body, "conditions.iter().filter_map(range_to_condition)")
                 what = "cond || cond ..."
             elif k.startswith("Range::Fallback"):
                 ok = show(a["body"]) == "None"
@@ -337,7 +335,7 @@ def r4_validation(ctx, prog):
         t = flat(show(fn.body))
         seq = ["ifinvalid_fallback{Err(", "elseif(fallback_count>1){Err(", "elseif((fallback_count==0)&&should_have_fallback){Err("]
         pos = [t.find(x) for x in seq]
-        if -1 in pos or pos != sorted(pos) or "let(invalid_fallback,fallback_count,should_have_fallback)=ranges.check_deserialization()" not in t:
+        if -1 in pos or pos != sorted(pos) or not has(t, "let(invalid_fallback,fallback_count,should_have_fallback)=ranges.check_deserialization()"):
             r.viol("R4:visit_seq#conditions", "the fallback conditions changed: expected invalid_fallback / fallback_count > 1 / fallback_count == 0 && should_have_fallback", file=fn.file, line=fn.line)
         else:
             r.inst("visit_seq#conditions", "invalid_fallback; fallback_count > 1; fallback_count == 0 && should_have_fallback")
@@ -431,7 +429,7 @@ def r6_populate(ctx):
         t = flat(show(fn.body))
         for k, frag in {"bloc": "ParsedValue::Bloc(values)=>{letnew_key=Plurals::find_variable(values,locale,key_path,foreign_key)?;self.populate_with_new_key(new_key,args,foreign_key,locale,key_path)}",
                         "variable": "ParsedValue::Variable{key:key,..}=>{self.populate_with_new_key(key.clone(),args,foreign_key,locale,key_path)}"}.items():
-            if frag in t:
+            if has(t, frag):
                 r.inst("populate_with_count_arg#" + k, "variable count renames the count key")
             else:
                 r.viol("R6:populate_with_count_arg#" + k, "a `{{ var }}` count no longer renames the count variable", file=fn.file, line=fn.line)
@@ -442,7 +440,7 @@ def r6_populate(ctx):
         r.missing("Ranges::populate_with_new_key(::inner)")
     else:
         t = flat(show(fn.body)) + flat(show(outer.body))
-        if "count_key:new_key" not in t or "letvalue=value.populate(args,foreign_key,locale,key_path)?;values.push((range,value));" not in t or "letrange=Clone::clone(range);" not in t:
+        if not has(t, "count_key:new_key") or not has(t, "letvalue=value.populate(args,foreign_key,locale,key_path)?;values.push((range,value));") or not has(t, "letrange=Clone::clone(range);"):
             r.viol("R6:populate_with_new_key", "branches are not copied (same range, populated value, in order) under the new count key", file=fn.file, line=fn.line)
         else:
             r.inst("populate_with_new_key", "each (range, value) -> (range.clone(), value.populate(args)) pushed in order; count_key = new_key")
